@@ -2,5 +2,5 @@
 # usage: mut.sh <prop> <file> <sed-expr> [extra flags]  -- apply a mutant to /repo, run the check, revert
 prop=$1; file=$2; expr=$3; shift 3
 cd /repo && sed -i "$expr" "$file" && git diff --stat | tail -1
-cd /verif && ./bin/voiverif -prop $prop -noevidence "$@" 2>&1 | tail -6
+cd /verif && timeout 900 ./bin/voiverif -prop $prop -noevidence "$@" 2>&1 | tail -6
 cd /repo && git checkout -- . 
